@@ -154,7 +154,9 @@ class GateReplacer(Visitor):
         """This happens when the user indexes a qubit register."""
         alias_from = self.visit(qubit.alias_from)
         alias_index = filter_float(self.visit(qubit.alias_index))
-        if isinstance(alias_index, float):
+        if not isinstance(alias_from, (Register, Parameter)):
+            raise JaqalError(f"Cannot index {alias_from}: not a register")
+        if not isinstance(alias_index, (int, AnnotatedValue)):
             raise JaqalError(f"Qubit index {alias_index} is not an integer")
         return alias_from[alias_index]
 
